@@ -8,12 +8,16 @@ package webrtc
 // outcome line, so that the orchestrator knows which vector was in flight and restarts behind it.
 
 import (
+	"encoding/binary"
 	"fmt"
 	"os"
 	"strconv"
 	"strings"
+	"sync/atomic"
 	"testing"
 	"time"
+
+	"github.com/pion/rtp"
 )
 
 type vhSec struct {
@@ -31,6 +35,16 @@ type vhVec struct {
 	Phase  string  `json:"phase"`
 	Type   string  `json:"type"`
 	Mirror bool    `json:"mirror"` // hostile answer: the local endpoint offers sections of the same kinds first
+	// media vectors (RTP / RTCP packets a connected peer sends)
+	Ssrc   string `json:"ssrc"` // primary | rtx | unknown
+	Pt     string `json:"pt"`   // primary | rtx | unknown
+	Cc     int    `json:"cc"`   // CSRC count
+	Ext    string `json:"ext"`  // none | onebyte | twobyte | empty
+	Pad    string `json:"pad"`  // none | ok | overlong | zero | all
+	Plen   int    `json:"plen"` // payload length
+	Marker bool   `json:"marker"`
+	Ptype  string `json:"ptype"` // RTCP packet type
+	Shape  string `json:"shape"` // RTCP defect class
 	// candidate vectors
 	Foundation, Component, Proto, Prio, Addr, Port, Typ, Tail, Line, Prefix string
 	MidC                                                                    string `json:"mid"`
@@ -328,6 +342,9 @@ func vhRun(t *testing.T, v vhVec) vkM { //nolint:cyclop
 		}
 		return vkM{"kind": "cand", "outcome": outcome, "sig": fmt.Sprintf("cand(typ=%s,addr=%s,port=%s,prio=%s,tail=%s,prefix=%q)", v.Typ, v.Addr, v.Port, v.Prio, v.Tail, v.Prefix)}
 	}
+	if v.Kind == "rtp" || v.Kind == "rtcp" {
+		return vhMedia(t, v)
+	}
 	pc := vhNewPC(t, v.Sem, v.Me)
 	var peer *PeerConnection
 	defer func() {
@@ -450,4 +467,247 @@ func vhRun(t *testing.T, v vhVec) vkM { //nolint:cyclop
 	}
 	return vkM{"kind": "sdp", "outcome": outcome, "steps": steps, "connected": connected, "drained": drained,
 		"sig": fmt.Sprintf("sdp(sem=%s,me=%s,type=%s,phase=%s,follow=%s,secs=%s)", v.Sem, v.Me, v.Type, v.Phase, v.Follow, strings.Join(shapes, "+"))}
+}
+
+// vhMedia: a connected pair with one video track (RTX negotiated); the sending side injects one hostile
+// RTP or RTCP packet through its SRTP / SRTCP session, then ordinary media again. The receiver has to stay
+// alive and keep delivering: "returned" when a well-formed packet written after the hostile one arrives.
+func vhMedia(t *testing.T, v vhVec) vkM { //nolint:cyclop
+	t.Helper()
+	sig := fmt.Sprintf("rtp(ssrc=%s,pt=%s,cc=%d,ext=%s,pad=%s,plen=%d)", v.Ssrc, v.Pt, v.Cc, v.Ext, v.Pad, v.Plen)
+	if v.Kind == "rtcp" {
+		sig = fmt.Sprintf("rtcp(type=%s,shape=%s)", v.Ptype, v.Shape)
+	}
+	out := vkM{"kind": v.Kind, "outcome": "returned", "steps": "", "connected": false, "drained": true, "sig": sig}
+	sender, receiver, err := newPair()
+	if err != nil {
+		t.Fatal(err)
+	}
+	defer func() {
+		_ = sender.Close()
+		_ = receiver.Close()
+	}()
+	track, err := NewTrackLocalStaticRTP(RTPCodecCapability{MimeType: MimeTypeVP8}, "video", "pion")
+	if err != nil {
+		t.Fatal(err)
+	}
+	rtpSender, err := sender.AddTrack(track)
+	if err != nil {
+		t.Fatal(err)
+	}
+	go func() { // the sender reads the RTCP it gets, as applications do
+		b := make([]byte, 1500)
+		for {
+			if _, _, e := rtpSender.Read(b); e != nil {
+				return
+			}
+		}
+	}()
+	var got atomic.Int64
+	receiver.OnTrack(func(remote *TrackRemote, r *RTPReceiver) {
+		go func() {
+			b := make([]byte, 1500)
+			for {
+				if _, _, e := r.Read(b); e != nil {
+					return
+				}
+			}
+		}()
+		b := make([]byte, 1500)
+		for {
+			if _, _, e := remote.Read(b); e != nil {
+				return
+			}
+			got.Add(1)
+		}
+	})
+	if err = signalPairWithOptions(sender, receiver, withDisableInitialDataChannel(true)); err != nil {
+		out["steps"] = "signal:false"
+		return out
+	}
+	seq := uint16(100)
+	sendMedia := func() {
+		seq++
+		_ = track.WriteRTP(&rtp.Packet{
+			Header:  rtp.Header{Version: 2, SequenceNumber: seq, Timestamp: uint32(seq) * 3000},
+			Payload: []byte{0x10, 0x00, 0x01, 0x02},
+		})
+	}
+	flows := func(min int64, d time.Duration) bool {
+		end := time.Now().Add(d)
+		for time.Now().Before(end) {
+			sendMedia()
+			if got.Load() >= min {
+				return true
+			}
+			time.Sleep(3 * time.Millisecond)
+		}
+		return false
+	}
+	if !flows(1, 5*time.Second) {
+		out["steps"] = "media:false"
+		return out
+	}
+	out["connected"] = true
+	params := rtpSender.GetParameters()
+	mediaPT := params.Codecs[0].PayloadType
+	rtxPT := findRTXPayloadType(mediaPT, params.Codecs)
+	primary, rtx := uint32(params.Encodings[0].SSRC), uint32(params.Encodings[0].RTX.SSRC)
+	if v.Kind == "rtp" {
+		sess, e := sender.dtlsTransport.getSRTPSession()
+		if e != nil {
+			out["steps"] = "session:false"
+			return out
+		}
+		raw, e := sess.OpenWriteStream()
+		if e != nil {
+			out["steps"] = "stream:false"
+			return out
+		}
+		h := rtp.Header{Version: 2, Marker: v.Marker, SequenceNumber: 7, Timestamp: 9}
+		switch v.Ssrc {
+		case "primary":
+			h.SSRC = primary
+		case "rtx":
+			h.SSRC = rtx
+		default:
+			h.SSRC = 0xDEADBEEF
+		}
+		switch v.Pt {
+		case "primary":
+			h.PayloadType = uint8(mediaPT)
+		case "rtx":
+			h.PayloadType = uint8(rtxPT)
+		default:
+			h.PayloadType = 77
+		}
+		for i := 0; i < v.Cc; i++ {
+			h.CSRC = append(h.CSRC, uint32(1000+i))
+		}
+		switch v.Ext {
+		case "onebyte":
+			h.Extension, h.ExtensionProfile = true, 0xBEDE
+			_ = h.SetExtension(1, []byte{0xAA, 0xBB})
+		case "twobyte":
+			h.Extension, h.ExtensionProfile = true, 0x1000
+			_ = h.SetExtension(1, []byte{0xAA, 0xBB, 0xCC})
+		case "empty":
+			h.Extension, h.ExtensionProfile = true, 0xBEDE
+		}
+		payload := make([]byte, v.Plen)
+		for i := range payload {
+			payload[i] = byte(0x10 + i%7)
+		}
+		if v.Pad != "none" && v.Plen > 0 {
+			h.Padding = true
+			switch v.Pad {
+			case "ok":
+				payload[v.Plen-1] = byte(1 + (v.Plen-1)%4)
+			case "overlong":
+				payload[v.Plen-1] = 255
+			case "zero":
+				payload[v.Plen-1] = 0
+			case "all":
+				payload[v.Plen-1] = byte(v.Plen % 256)
+			}
+		}
+		_, e = raw.WriteRTP(&h, payload)
+		out["steps"] = "write:" + strconv.FormatBool(e == nil)
+	} else {
+		sess, e := sender.dtlsTransport.getSRTCPSession()
+		if e != nil {
+			out["steps"] = "session:false"
+			return out
+		}
+		raw, e := sess.OpenWriteStream()
+		if e != nil {
+			out["steps"] = "stream:false"
+			return out
+		}
+		_, e = raw.Write(vhRTCP(v, primary))
+		out["steps"] = "write:" + strconv.FormatBool(e == nil)
+	}
+	// the receiver keeps working: media written after the hostile packet still arrives
+	if !flows(got.Load()+2, 5*time.Second) {
+		out["outcome"] = "hung"
+	}
+	return out
+}
+
+// vhRTCP builds one RTCP packet (or compound) of the given type with the given defect.
+func vhRTCP(v vhVec, ssrc uint32) []byte {
+	types := map[string][2]byte{ // packet type, count/fmt
+		"sr": {200, 0}, "rr": {201, 1}, "sdes": {202, 1}, "bye": {203, 1}, "nack": {205, 1}, "twcc": {205, 15},
+		"pli": {206, 1}, "fir": {206, 4}, "remb": {206, 15}, "unknown": {199, 3},
+	}
+	tp := types[v.Ptype]
+	body := make([]byte, 4, 64) // sender SSRC
+	binary.BigEndian.PutUint32(body, 0x01020304)
+	switch v.Ptype {
+	case "sr":
+		body = append(body, make([]byte, 20)...)
+	case "rr":
+		blk := make([]byte, 24)
+		binary.BigEndian.PutUint32(blk, ssrc)
+		body = append(body, blk...)
+	case "sdes":
+		body = append(body[:0], 0x01, 0x02, 0x03, 0x04, 1, 2, 'a', 'b', 0, 0, 0, 0)
+	case "bye":
+	case "nack":
+		m := make([]byte, 8)
+		binary.BigEndian.PutUint32(m, ssrc)
+		binary.BigEndian.PutUint16(m[4:], 100)
+		body = append(body, m...)
+	case "pli":
+		m := make([]byte, 4)
+		binary.BigEndian.PutUint32(m, ssrc)
+		body = append(body, m...)
+	case "fir":
+		m := make([]byte, 12)
+		binary.BigEndian.PutUint32(m[4:], ssrc)
+		body = append(body, m...)
+	case "remb":
+		m := make([]byte, 16)
+		copy(m[4:], "REMB")
+		m[8] = 1
+		binary.BigEndian.PutUint32(m[12:], ssrc)
+		body = append(body, m...)
+	case "twcc":
+		m := make([]byte, 16)
+		binary.BigEndian.PutUint32(m, ssrc)
+		binary.BigEndian.PutUint16(m[4:], 1)
+		binary.BigEndian.PutUint16(m[6:], 1)
+		body = append(body, m...)
+	default:
+		body = append(body, 1, 2, 3, 4)
+	}
+	count := tp[1]
+	switch v.Shape {
+	case "short":
+		body = body[:4]
+	case "count-over":
+		count = 31
+	case "zero-ssrc":
+		for i := range body {
+			body[i] = 0
+		}
+	}
+	pkt := make([]byte, 4+len(body))
+	pkt[0] = 0x80 | count
+	pkt[1] = tp[0]
+	words := len(body) / 4
+	switch v.Shape {
+	case "length-over":
+		words += 7
+	case "length-under":
+		if words > 1 {
+			words--
+		}
+	}
+	binary.BigEndian.PutUint16(pkt[2:], uint16(words)) //nolint:gosec
+	copy(pkt[4:], body)
+	if v.Shape == "compound-garbage" {
+		pkt = append(pkt, 0x81, 0xC9, 0x00, 0x40, 0xDE, 0xAD, 0xBE, 0xEF, 0x01)
+	}
+	return pkt
 }
